@@ -15,6 +15,7 @@ LEVEL_NOTE = "premises decided statically; the termination argument built on the
 def run(ctx):
     from . import guardvocab
     guardvocab.G0(ctx, effects={'branch', 'explore'})
+    guardvocab.G1(ctx, effects={'branch', 'explore'})
     ctx.assume("lexicographic-measure argument of DESIGN.md section 5 (C14) from premises X1-X4 and B3")
     pathrules.X1(ctx)
     pathrules.X2(ctx)
